@@ -8,8 +8,8 @@ RULE = ('valid JSON texts (random values, every escape, strings ending in escape
         'strings/comments, lone slashes, backslash at the end); the buffer ends flush against a PROT_NONE page; non-trivial = '
         'distinct input on which the output differs from the input or that contains a string literal or comment')
 ASSUMPTIONS = ['C locale', 'the model is a hand-written transliteration; its agreement with cJSON.c is established by this differential run',
-               'value equality of the parsed trees (last clause of the property) is checked by execution (python json as independent parser), not proved']
-TRUSTED_EXTRA = ['python3 json module as the independent parser for the "parses to an equal tree" clause']
+               'value equality of the parsed trees (last clause) is proved against the parser model (ParseDefs.v) under the libc contract strtod_ok / strtod_rfc, and cross-checked by execution (python json as independent parser)']
+TRUSTED_EXTRA = ['python3 json module as the independent parser in the runtime cross-check of the "parses to an equal tree" clause (the clause itself is a theorem)']
 
 ALPH = [b'"', b'\\', b'/', b'*', b'\n', b' ', b'a', b'1', b'{', b'}', b',', b':', b'\t', b'\r', b'[', b']', b'\xc3\xa9', b'\\"', b'\\\\', b'//', b'/*', b'*/']
 
